@@ -64,7 +64,44 @@ def _ins(t, i, x):
     return t
 
 
+def _iadd(tl, x):
+    tl += x
+    return tl
+
+
+def _displayed(x):
+    """The REPL display path: values displayed inside `with tag:` are appended as children."""
+    import sys
+
+    old = sys.displayhook
+    sys.displayhook = lambda v: None
+    t = div()
+    try:
+        with t:
+            sys.displayhook(span("k"))
+            sys.displayhook(x)
+    finally:
+        sys.displayhook = old
+    return t
+
+
+def _doc_append(x):
+    d = ht.HTMLDocument(div("a"))
+    d.append(x, span("z"))
+    return d
+
+
 PATHS = {
+    "taglist_iadd_list": lambda x: _iadd(ht.TagList(span()), [x, "t"]).get_html_string(),
+    "taglist_iadd_str": lambda x: _iadd(ht.TagList(p()), x).get_html_string(),
+    "taglist_insert": lambda x: _ins(ht.TagList(span(), div()), 1, x).get_html_string(),
+    "taglist_slice": lambda x: ht.TagList(span(), x, div())[1:].get_html_string(),
+    "taglist_mul": lambda x: (ht.TagList(x, span()) * 2).get_html_string(),
+    "displayed_in_with_block": lambda x: _displayed(x).get_html_string(),
+    "document_append": lambda x: _doc_append(x).render()["html"],
+    "copy_then_render": lambda x: __import__("copy").copy(div(span(), x)).get_html_string(),
+    "tagify_then_render": lambda x: div(p(), x).tagify().get_html_string(),
+    "save_html_roundtrip": lambda x: str(div(x, ht.tags.em())),
     "only_child_block": lambda x: div(x).get_html_string(),
     "only_child_inline": lambda x: span(x).get_html_string(),
     "only_child_custom": lambda x: ht.Tag("my-el", x).get_html_string(),
@@ -284,7 +321,7 @@ def _run(ctx):
     # 4. random hostile strings and numbers
     for _ in range(ctx.budget(3000, 3000000)):
         pth = rng.choice(paths)
-        if rng.random() < 0.15 and pth not in ("taglist_add", "taglist_radd", "tagify_single"):
+        if rng.random() < 0.15 and pth not in ("taglist_add", "taglist_radd", "tagify_single", "taglist_iadd_str"):
             v = gen._num(gen.number_of(rng))
             if rng.random() < 0.3:
                 v = HostileInt(rng.randint(-5, 99)) if rng.random() < 0.5 else HostileFloat(rng.random())
